@@ -12,6 +12,7 @@ mod lexer;
 mod nodes;
 mod decode;
 mod values;
+mod term;
 mod dump;
 mod symm;
 mod lines;
@@ -34,6 +35,7 @@ fn main() {
         Some("ops-scalar-op") => ops::scalar_op(&v),
         Some("ops-search") => ops::search(&v),
         Some("symm-search") => symm::search(&v),
+        Some("term-search") => term::search(&v),
         Some("dump-search") => dump::search(&v),
         Some("values-search") => values::search(&v),
         Some("values-enum") => values::enumerate(args.get(1).and_then(|s| s.parse().ok()).unwrap_or(3), args.get(2).map(String::as_str).unwrap_or("straight")),
